@@ -333,7 +333,9 @@ def run_check(prop: str, tier: str, seed: int) -> int:
             new_viol.append(v)
 
     os.makedirs(os.path.join(HERE, "replays"), exist_ok=True)
-    os.makedirs(os.path.join(HERE, "evidence"), exist_ok=True)
+    # evidence/ describes runs against /repo only; runs against a scratch tree (VERIF_REPO) go elsewhere
+    evdir = os.path.join(HERE, "evidence") if os.path.realpath(REPO) == "/repo" else os.path.join(HERE, "replays", "evidence-scratch")
+    os.makedirs(evdir, exist_ok=True)
     lines = []
     for key, (k, n) in sorted(known_hits.items()):
         lines.append(f"KNOWN-FINDING: property={prop} {key} {k.get('what', '')} (seen {n}x)")
@@ -383,7 +385,7 @@ def run_check(prop: str, tier: str, seed: int) -> int:
         "wall_s": round(wall, 2),
         "violations": len(seen_keys),
     }
-    with open(os.path.join(HERE, "evidence", f"{prop}.json"), "w") as fh:
+    with open(os.path.join(evdir, f"{prop}.json"), "w") as fh:
         json.dump(ev, fh, indent=1, default=str)
     for ln in lines:
         print(ln)
